@@ -139,6 +139,9 @@ func TestVerif_C22(t *testing.T) {
 	typeStride := map[string]int{}
 	cutCount, restarted := 0, 0
 	var current *vC22Step
+	firstFinal := map[crypto.Hash]crypto.Hash{} // transaction -> snapshot that finalized it first (recorded after the delivery returned)
+	var finalizedTxs []*common.VersionedTransaction
+	onChain := map[string]bool{} // transaction|chain pairs already written (a chain never repeats a transaction)
 	var inflight *common.Snapshot // certified snapshot being delivered when the cut is taken
 	var inflightTxs []*common.VersionedTransaction
 	totalBudget := r.N(44, 1<<30)
@@ -174,6 +177,13 @@ func TestVerif_C22(t *testing.T) {
 			return
 		}
 		problems, fin, pos := vC22Scan(f2)
+		for txh, sh := range firstFinal {
+			_, got, err := f2.node.persistStore.ReadTransaction(txh)
+			if err != nil || got != sh.String() {
+				problems = append(problems, fmt.Sprintf("finalization record of a transaction finalized before the stop changed: first snapshot %s, now %q", sh, got))
+				break
+			}
+		}
 		r.Count("finalized_transactions_scanned", fin)
 		r.Count("topology_positions_scanned", pos)
 		if len(problems) > 0 {
@@ -274,6 +284,18 @@ func TestVerif_C22(t *testing.T) {
 		if len(st.txs) == 0 {
 			continue
 		}
+		if len(finalizedTxs) > 0 && rng.Intn(5) == 0 {
+			// what happens when two chains include the same transaction: it arrives again in this chain's snapshot
+			old := finalizedTxs[rng.Intn(len(finalizedTxs))]
+			dup := false
+			for _, tx := range st.txs {
+				dup = dup || tx.PayloadHash() == old.PayloadHash()
+			}
+			if !dup && old.IsSnapshotBatchable() && !onChain[old.PayloadHash().String()+st.chain.String()] {
+				st.txs = append(st.txs, old)
+				r.Count("steps_repeating_a_finalized_transaction", 1)
+			}
+		}
 		st.ts = f.tick(uint64(1800 * time.Millisecond))
 		current = st
 		inflight, inflightTxs = nil, nil
@@ -334,6 +356,11 @@ func TestVerif_C22(t *testing.T) {
 			r.Count("snapshots_finalized_live", 1)
 			for _, tx := range st.txs {
 				w.Applied(tx, st.specs[tx.PayloadHash()])
+				onChain[tx.PayloadHash().String()+st.chain.String()] = true
+				if _, ok := firstFinal[tx.PayloadHash()]; !ok {
+					firstFinal[tx.PayloadHash()] = s.Hash
+					finalizedTxs = append(finalizedTxs, tx)
+				}
 			}
 		} else {
 			r.Count("snapshots_not_finalized_live", 1)
